@@ -478,6 +478,14 @@ def check_reinit_growth(P, R, rid):
 
         def growth_sites(fn):
             for n in walk_shallow(fn.node):
+                if isinstance(n, ast.Call) and isinstance(n.func, ast.Name) and fn.rd.is_local(n.func.id):
+                    # a bound method picked into a local first: `add = self.headers.append; add(..)`
+                    ns_ = fn.cfg.node_of_stmt(n)
+                    vals_ = [d.value for d in (fn.rd.at(ns_[0], n.func.id) if ns_ else [])]
+                    if vals_ and all(isinstance(v_, ast.Attribute) and v_.attr in E.MUTATORS and (dotted(v_.value) or '').startswith('self.') for v_ in vals_):
+                        if vals_[0].attr not in ('clear', 'pop', 'remove', 'discard', 'popitem'):
+                            yield n, dotted(vals_[0].value).split('.')[1]
+                    continue
                 if isinstance(n, ast.Call) and isinstance(n.func, ast.Attribute) and n.func.attr in E.MUTATORS and n.func.attr not in ('clear', 'pop', 'remove', 'discard', 'popitem'):
                     recv = n.func.value
                     while isinstance(recv, ast.Subscript):
